@@ -248,6 +248,9 @@ def judge(spec, res):
             d = max(abs(a + b - c) for a, b, c in zip(A[i], B[i], C[i]))
             worst = max(worst, d / s)
             bound = ADD_ADAPTIVE_FACTOR * spec["cfg"][2] if adaptive else ROUND_REL
+            # the tolerance-based bound only means something when the recursion stops by tolerance, not by depth: with the
+            # depth-3 setting a dipole 0.14 R from a surface is cut off unconverged (0.19*max|column| seen) -> measured only
+            if adaptive and spec["cfg"][1] < 10: continue
             if d > bound * s:
                 out.append(("additivity: column(q1+q2) differs from column(q1)+column(q2)" + (" beyond the integrator tolerance" if adaptive else ""),
                             "%s: dipole %d, |col(q1+q2)-col(q1)-col(q2)| = %g = %.3g * max|column|, allowed %.3g (%s)"
@@ -403,6 +406,13 @@ def gen_model_specs(rng, h, mid, m, quick, rules=None, consts=None):
     for d in sorted(by_dom):
         inside = [tuple(pt) + mom() for pt, w in [x for x in by_dom[d] if x[0] not in pts][:10]]
         if inside and conds[d] != 0.0: specs.append(dict(sp, rel="named", dips=inside, dom=d))
+    # deterministic site batches (DipSourceMat fixed + default adaptive, DipSource2InternalPotMat)
+    site = [pt for pt, w in batch][:3]
+    if len(site) == 3:
+        zero_of = lambda q: conds[tdom[tuple(q)]] == 0.0
+        for cfg in CFGS[:2]:
+            specs += site_specs(dict(fn="dsm", mid=mid, cfg=list(cfg[:3])), site[0], site[1], site[2], mom, zero_of)
+        specs += site_specs(dict(sp), site[0], site[1], site[2], mom, zero_of)
     # EITSourceMat: point electrodes next to the scalp; same locality relations (columns = electrodes)
     R_ = m["info"]["outer_radius"]; c_ = m["info"].get("centre", (0, 0, 0))
     els = [tuple(x) + (0.0, 0.0, 0.0) for x in models.sensors_on_sphere(rng, rng.randint(2, 5), c_, 1.01 * R_)]     # padded to 6 numbers, only 3 are sent
@@ -474,8 +484,23 @@ def gen_model_specs(rng, h, mid, m, quick, rules=None, consts=None):
     info["location"] = loc
     return specs, structs, info, values, threaded
 
+def site_specs(base, A, X, Y, mom, zero_of=None):
+    """deterministic part of every run (never behind a probability): a batch with the 3 orientations at one site between two
+    other dipoles (re-indexed to the 3 orientations alone), and a batch that starts and ends at the same location; both with
+    every dipole also computed alone (single-dipole batches) and split.  Catches state keyed on the dipole location."""
+    e = [(1.0, 0.0, 0.0), (0.0, 1.0, 0.0), (0.0, 0.0, 1.0)]
+    d1 = [tuple(X) + mom(), tuple(A) + e[0], tuple(A) + e[1], tuple(A) + e[2], tuple(Y) + mom()]
+    d2 = [tuple(A) + mom(), tuple(X) + mom(), tuple(Y) + mom(), tuple(A) + mom()]
+    z = (lambda ds: [i for i, d in enumerate(ds) if zero_of(d[:3])]) if zero_of else (lambda ds: [])
+    return [dict(base, rel="locality", dips=d1, p=[1, 2, 3], cut=1, zero_cols=z(d1), site="3 orientations at one site"),
+            dict(base, rel="locality", dips=d2, p=[3, 0], cut=3, zero_cols=z(d2), site="first and last dipole at the same location")]
+
 def meg_specs(rng, quick):
     specs = []
+    # deterministic: 4 sensors, the two site batches
+    sens0 = [tuple(1.3 * x for x in models.random_unit(rng)) + models.random_unit(rng) + (1.0,) for _ in range(4)]
+    pos0, _m = models.dipoles_in_ball(rng, 3, (0, 0, 0), 1.0)
+    specs += site_specs(dict(fn="meg", sens=sens0, mid=-1), pos0[0], pos0[1], pos0[2], lambda: models.random_unit(rng))
     for _ in range(3 if quick else 10):
         ns = rng.choice([1, 2, 5, 9]); nd = rng.choice([1, 2, 6])
         sens = [tuple(1.3 * x for x in models.random_unit(rng)) + models.random_unit(rng) + (rng.choice([1.0, 0.5, 2.0, rng.uniform(0.1, 3)]),) for _ in range(ns)]
@@ -509,6 +534,7 @@ def run_specs(ck, h, specs, mdl_of, env=None):
                 if best is not None:
                     rep["spec"] = {k: v for k, v in best.items() if not k.startswith("_") and k not in ("p", "cut", "zero_cols")}
                     text += "; minimised to the two dipoles %s" % (best["dips"],)
+            if s.get("site"): text += " [batch: %s]" % s["site"]
             if s.get("threads", 1) > 1: text += " [OMP_NUM_THREADS=%d: P0 rows bitwise, P1 rows at %g*max|column|]" % (s["threads"], THREAD_REL); rep["env"] = dict(OMP_NUM_THREADS=str(s["threads"]))
             ck.violation("%s %s%s" % (fn_name(s), sig, " (several threads)" if s.get("threads", 1) > 1 else ""), text, rep)
     return nfail
